@@ -228,23 +228,23 @@ theorem split_joined (ts : List Text) (h : ts.all cleanSeg = true) : splitPathIn
     exact normSegs_of_clean _ (fun s hs => (hc s hs).1)
 
 theorem intended_splits (u : Ucd) (kw : Kw) : ∀ (toks : List Tok) (I : Text) (E : Env),
-    sepOk kw toks = true → restNoLF kw toks = true → intended kw toks = some I → expectEnv kw toks = some E →
-      Splits u NoLF toks I E
-  | [], I, E, _, _, hi, he => by
+    sepOk kw toks = true → intended kw toks = some I → expectEnv kw toks = some E →
+      Splits u (fun _ => True) toks I E
+  | [], I, E, _, hi, he => by
     simp only [intended, Option.some.injEq] at hi
     simp only [expectEnv, Option.some.injEq] at he
     subst hi; subst he
     exact .nil
-  | .lit l :: ts, I, E, hs, hn, hi, he => by
+  | .lit l :: ts, I, E, hs, hi, he => by
     simp only [intended] at hi
     cases hi' : intended kw ts with
     | none => simp [hi'] at hi
     | some I' =>
       simp only [hi', Option.map_some, Option.some.injEq] at hi
       subst hi
-      exact .lit (intended_splits u kw ts I' E (by simpa [sepOk] using hs) (by simpa [restNoLF] using hn) hi'
+      exact .lit (intended_splits u kw ts I' E (by simpa [sepOk] using hs) hi'
         (by simpa [expectEnv] using he))
-  | .ph n rx :: ts, I, E, hs, hn, hi, he => by
+  | .ph n rx :: ts, I, E, hs, hi, he => by
     simp only [sepOk, Bool.and_eq_true, decide_eq_true_eq] at hs
     obtain ⟨⟨⟨hrx, hv⟩, _⟩, hts⟩ := hs
     subst hrx
@@ -272,23 +272,21 @@ theorem intended_splits (u : Ucd) (kw : Kw) : ∀ (toks : List Tok) (I : Text) (
               simp only [expectVal, ha, Option.map_some, he', Option.some.injEq] at he
               subst hi; subst he
               exact .ph ((lang_notSlashPlus u t).mpr ⟨hv.1, hv.2⟩)
-                (intended_splits u kw ts I' E' hts (by simpa [restNoLF] using hn) hi' he')
-  | .rest n :: ts, I, E, hs, hn, hi, he => by
+                (intended_splits u kw ts I' E' hts hi' he')
+  | .rest n :: ts, I, E, hs, hi, he => by
     simp only [sepOk, Bool.and_eq_true, List.isEmpty_iff] at hs
     obtain ⟨hts, hv⟩ := hs
     subst hts
     simp only [intended] at hi
     simp only [expectEnv] at he
-    simp only [restNoLF, Bool.and_true] at hn
     cases hl : kw.lookup n with
     | none => simp [hl] at hi
     | some v =>
-      simp only [hl] at hi he hv hn
+      simp only [hl] at hi he hv
       cases ht : restText v with
       | none => simp [ht] at hi
       | some t =>
         simp only [ht, Option.some.injEq] at hi
-        simp only [Option.bind_some, ht, Bool.not_eq_true', List.contains_eq_mem, decide_eq_false_iff_not] at hn
         have hi : I = t ++ [] := by simpa using hi.symm
         subst hi
         have hx : expectVal (.rest n) v = some (.segs (splitPathInfo t)) := by
@@ -307,6 +305,6 @@ theorem intended_splits (u : Ucd) (kw : Kw) : ∀ (toks : List Tok) (I : Text) (
               simp [expectVal, hxs, split_joined tl hv]
         simp only [hx, Option.some.injEq] at he
         subst he
-        exact .rest hn .nil
+        exact .rest trivial .nil
 
 end Pyr.UrlGen
